@@ -251,8 +251,8 @@ func c15BlockLength(c *Ctx, b string, setup *ssa.Function, hdr *types.Named) {
 	w := e.NewGhost("wireSize(b)", 4, c05MaxBytes)
 	tied := 0
 	e.PostCallHook = func(e *num.Engine, st *num.State, in *ssa.Call, f *ssa.Function) {
-		if f == ws && in.Parent() == setup {
-			if mi, ok := in.Common().Args[0].(*ssa.MakeInterface); ok && mi.X == ssa.Value(setup.Params[0]) {
+		if f == ws {
+			if mi, ok := e.ActualOf(in.Common().Args[0]).(*ssa.MakeInterface); ok && mi.X == ssa.Value(setup.Params[0]) {
 				v := e.ExprOf(st, in)
 				st.Assume(v.AddConst(-4))
 				st.Assume(v.Neg().AddConst(c05MaxBytes))
@@ -301,7 +301,22 @@ func c15Dispatch(c *Ctx, regOf map[string]int) {
 	rb := p.Named("ReportBlock")
 	iface, _ := rb.Underlying().(*types.Interface)
 	got := map[string][]int{}
+	// the switch may live in a factory function called by the decoder (result type ReportBlock)
+	fns := []*ssa.Function{fn}
 	for _, b := range fn.Blocks {
+		for _, in := range b.Instrs {
+			if call, ok := in.(*ssa.Call); ok {
+				if g := call.Common().StaticCallee(); g != nil && g.Pkg == p.SPkg && g.Blocks != nil && g.Signature.Results().Len() == 1 && types.Identical(g.Signature.Results().At(0).Type(), rb) {
+					fns = append(fns, g)
+				}
+			}
+		}
+	}
+	var blocks []*ssa.BasicBlock
+	for _, g := range fns {
+		blocks = append(blocks, g.Blocks...)
+	}
+	for _, b := range blocks {
 		for _, in := range b.Instrs {
 			al, ok := in.(*ssa.Alloc)
 			if !ok || !al.Heap {
